@@ -7,13 +7,17 @@ import PromVerif.Lemmas.OMGroup
 namespace PromVerif.Lemmas.OM
 open PromVerif.Py PromVerif.Model.ParseCore PromVerif.Model.Validation PromVerif.Model.OMParse PromVerif.Generated.OMParse
 
-/-- a tokenised line outside the confirmed finding classes: its own parsing raised at most ValueError; it is not
-shaped like a native histogram; its sample (if it parses) has labels and a value, no integer beyond the range of
-`float`, and a timestamp of the document's one form (`k`: `Timestamp`s or floats) -/
-def LineOK (P : Params) (k : Bool) : Line → Prop
+/-- a native-histogram sample as `_parse_nh_sample` returns it (no value; the suffix rule excludes `_bucket`), whose
+name does not end in `_gsum` -/
+def NhLine (s : OSample) : Prop := s.value = none ∧ endsWith sBucket s.name = false ∧ endsWith sGsum s.name = false
+
+/-- what the fold needs of a tokenised line: its own parsing raised at most ValueError; both readings of a sample
+line raise at most ValueError; the native-histogram reading gives an `NhLine`, the plain reading a sample with labels,
+a value and a timestamp that converts to float -/
+def LineOK (P : Params) : Line → Prop
   | .bad e => e = .valueError
-  | .sample nh plain => (nh = .ok none ∨ nh = .error .valueError) ∧ Safe plain ∧
-      ∀ s, plain = .ok s → Plain s ∧ NotHuge P s ∧ TsClass k s.ts
+  | .sample nh plain => Safe nh ∧ (∀ s, nh = .ok (some s) → NhLine s) ∧ Safe plain ∧
+      ∀ s, plain = .ok s → Plain s ∧ TsOK P s.ts
   | _ => True
 
 def isHist (h : Hdr) : Bool := histTypes.contains (h.typ.getD tUnknown)
@@ -21,14 +25,14 @@ def isHist (h : Hdr) : Bool := histTypes.contains (h.typ.getD tUnknown)
 def Prefixed (n : Str) (allowed : List Str) : Prop := ∀ x ∈ allowed, ∃ suf, x = n ++ suf
 
 /-- the invariant of the fold -/
-structure Inv (k : Bool) (st : St) : Prop where
-  plain : ∀ s ∈ st.grp.samples, Plain s
+structure Inv (P : Params) (st : St) : Prop where
+  plain : ∀ s ∈ st.grp.samples, Plain s ∨ NhLine s
   nameNone : st.hdr.name = none → st.hdr.allowed = []
   hist : ∀ n, st.hdr.name = some n → isHist st.hdr = true → Prefixed n st.hdr.allowed ∧ HistOK n st.grp.samples
-  gts : TsClass k st.grp.groupTs
+  gts : TsOK P st.grp.groupTs
 
-theorem inv_init (k : Bool) : Inv k {} :=
-  ⟨(fun s hs => by cases hs), (fun _ => rfl), (fun n hn => by cases hn), trivial⟩
+theorem inv_init (P : Params) : Inv P {} :=
+  ⟨(fun s hs => by cases hs), (fun _ => rfl), (fun n hn => by cases hn), (fun a b h => by cases h)⟩
 
 theorem safe_applyMeta (h : Hdr) (kind c rest : Str) : Safe (applyMeta h kind c rest) := by
   intro e he
@@ -90,13 +94,12 @@ theorem unknown_not_hist : histTypes.contains tUnknown = false := by decide
 /-- what a successful `sampleChecks` (plain sample) went through -/
 theorem sampleChecks_ok2 (P : Params) (h : Hdr) (gr gr' : Grp) (s : OSample) (n : Str) (hn : h.name = some n)
     (hs : sampleChecks P h gr s false = .ok gr') : preChecks P n h.typ s = .ok () ∧ groupStep P gr n (h.typ.getD []) s = .ok gr' := by
-  unfold sampleChecks at hs
-  rw [hn] at hs; dsimp only at hs
+  rw [sampleChecks_false, hn] at hs
+  dsimp only at hs
   cases h1 : preChecks P n h.typ s with
   | error e => rw [h1] at hs; dsimp only at hs; cases hs
   | ok u =>
     rw [h1] at hs; dsimp only at hs
-    simp only [Bool.not_false, if_true] at hs
     cases h2 : groupStep P gr n (h.typ.getD []) s with
     | error e => rw [h2] at hs; dsimp only at hs; cases hs
     | ok g2 =>
@@ -104,6 +107,26 @@ theorem sampleChecks_ok2 (P : Params) (h : Hdr) (gr gr' : Grp) (s : OSample) (n 
       cases h3 : postChecks P n h.typ s with
       | error e => rw [h3] at hs; dsimp only at hs; cases hs
       | ok u3 => rw [h3] at hs; dsimp only at hs; exact ⟨rfl, hs⟩
+
+/-- a native-histogram sample is appended without any check (`if is_nh: samples.append(sample); continue`, 74e3eee) -/
+theorem sampleChecks_nh (P : Params) (h : Hdr) (gr : Grp) (s : OSample) :
+    sampleChecks P h gr s true = .ok { gr with samples := gr.samples ++ [s] } := by
+  have hflag : nhSkipsChecks = true := by decide
+  unfold sampleChecks
+  rw [hflag]
+  rfl
+
+theorem endsWith_of_drop (suf name : Str) (k : Nat) (h : name.drop k = suf) : endsWith suf name = true := by
+  unfold endsWith
+  have : name = name.take k ++ suf := by rw [← h]; exact (List.take_append_drop k name).symm
+  rw [this, List.reverse_append]
+  exact List.isPrefixOf_iff_prefix.mpr (List.prefix_append _ _)
+
+theorem nhIn_of_nhLine (n : Str) (s : OSample) (h : NhLine s) : NhIn n s := by
+  obtain ⟨hv, hb, hg⟩ := h
+  refine ⟨hv, fun e => ?_, fun e => ?_⟩
+  · rw [endsWith_of_drop _ _ _ e] at hb; cases hb
+  · rw [endsWith_of_drop _ _ _ e] at hg; cases hg
 
 theorem groupStep_samples_sub (P : Params) (gr gr' : Grp) (n t : Str) (s : OSample) (h : groupStep P gr n t s = .ok gr') :
     (∀ x ∈ gr'.samples, x ∈ gr.samples ∨ x = s) ∧ gr'.groupTs = s.ts := by
@@ -122,17 +145,13 @@ theorem groupStep_samples_sub (P : Params) (gr gr' : Grp) (n t : Str) (s : OSamp
 
 /-- the `le` test of the main loop leaves an `le` label on every `<name>_bucket` sample it lets through -/
 theorem preChecks_le (P : Params) (n : Str) (typ : Option Str) (s : OSample) (l : Labels) (hl : s.labels = some l)
-    (hpre : preChecks P n typ s = .ok ()) (hname : s.name = n ++ sBucket) : ∃ le, dictGet l sLe = some le := by
-  have hq := runChecks_ok_mem _ hpre (chkLe P n s) (by simp)
-  unfold chkLe at hq
-  simp only [hname, beq_self_eq_true, if_true, labelsOrAttr, hl] at hq
-  cases hg : dictGet l sLe with
-  | none => rw [hg] at hq; cases hq
-  | some q => exact ⟨q, rfl⟩
+    (hpre : preChecks P n typ s = .ok ()) (hname : s.name = n ++ sBucket) : ∃ le, dictGet l sLe = some le :=
+  chkLe_ok_has P n s l hl hname.symm (runChecks_ok_mem _ hpre (chkLe P n s) (by simp))
 
 theorem pickSample_lineOK (typ : Option Str) (nh : PyM (Option OSample)) (plain : PyM OSample)
-    (hnh : nh = .ok none ∨ nh = .error .valueError) (hp : Safe plain) :
-    Safe (pickSample typ nh plain) ∧ ∀ s isNh, pickSample typ nh plain = .ok (s, isNh) → isNh = false ∧ plain = .ok s := by
+    (hnh : Safe nh) (hp : Safe plain) :
+    Safe (pickSample typ nh plain) ∧ ∀ s isNh, pickSample typ nh plain = .ok (s, isNh) →
+      (isNh = true ∧ nh = .ok (some s)) ∨ (isNh = false ∧ plain = .ok s) := by
   have hplain : Safe (plain.map (·, false)) ∧ ∀ s isNh, plain.map (·, false) = .ok (s, isNh) → isNh = false ∧ plain = .ok s := by
     cases plain with
     | error e => exact ⟨fun e' he' => by cases he'; exact hp e rfl, fun s isNh h => by cases h⟩
@@ -143,14 +162,20 @@ theorem pickSample_lineOK (typ : Option Str) (nh : PyM (Option OSample)) (plain 
       exact ⟨rfl, rfl⟩
   unfold pickSample
   split
-  · rcases hnh with rfl | rfl
-    · exact hplain
-    · exact ⟨safe_valueError, fun s isNh h => by cases h⟩
-  · exact hplain
+  · cases nh with
+    | error e => exact ⟨fun e' he' => by cases he'; exact hnh e rfl, fun s isNh h => by cases h⟩
+    | ok o =>
+      cases o with
+      | none => exact ⟨hplain.1, fun s isNh h => Or.inr (hplain.2 s isNh h)⟩
+      | some s' =>
+        refine ⟨safe_ok _, fun s isNh h => Or.inl ?_⟩
+        obtain ⟨rfl, rfl⟩ := Prod.mk.inj (Except.ok.inj h)
+        exact ⟨rfl, rfl⟩
+  · exact ⟨hplain.1, fun s isNh h => Or.inr (hplain.2 s isNh h)⟩
 
 /-- one line: nothing but ValueError, and the invariant is kept -/
-theorem step_safe (P : Params) (k : Bool) (st : St) (l : Line) (hi : Inv k st) (hl : LineOK P k l) :
-    Safe (stepLine P st l) ∧ ∀ st', stepLine P st l = .ok st' → Inv k st' := by
+theorem step_safe (P : Params) (hnan : NaNLiteral P) (st : St) (l : Line) (hi : Inv P st) (hl : LineOK P l) :
+    Safe (stepLine P st l) ∧ ∀ st', stepLine P st l = .ok st' → Inv P st' := by
   have hflush : Safe (flush P st.glob st.hdr st.grp.samples) :=
     safe_flush P _ _ _ (fun n hn hh => (hi.hist n hn hh).2)
   constructor
@@ -181,7 +206,7 @@ theorem step_safe (P : Params) (k : Bool) (st : St) (l : Line) (hi : Inv k st) (
             · rename_i e' hm; cases he; exact safe_applyMeta _ _ _ _ _ hm
             · cases he
       | sample nh plain =>
-        obtain ⟨hnh, hsp, hpl⟩ := hl
+        obtain ⟨hnh, hnl, hsp, hpl⟩ := hl
         obtain ⟨hps, hpo⟩ := pickSample_lineOK st.hdr.typ nh plain hnh hsp
         dsimp only at he
         cases hp : pickSample st.hdr.typ nh plain with
@@ -189,40 +214,43 @@ theorem step_safe (P : Params) (k : Bool) (st : St) (l : Line) (hi : Inv k st) (
         | ok p =>
           obtain ⟨s, isNh⟩ := p
           rw [hp] at he; dsimp only at he
-          obtain ⟨rfl, hplain⟩ := hpo s isNh hp
-          obtain ⟨hP, hH, hT⟩ := hpl s hplain
-          unfold stepSample at he
-          split at he
-          · cases hf : flush P st.glob st.hdr st.grp.samples with
-            | error e' => rw [hf] at he; cases he; exact hflush _ hf
-            | ok g =>
-              rw [hf] at he; dsimp only at he
-              cases hu : unknownHdr s with
-              | error e' => rw [hu] at he; cases he; exact safe_unknownHdr s _ hu
-              | ok hd =>
-                rw [hu] at he; dsimp only at he
-                obtain ⟨⟨c, hc⟩, _, _⟩ := unknownHdr_ok s hd hu
-                cases hsc : sampleChecks P hd {} s false with
-                | error e' =>
-                  rw [hsc] at he; cases he
-                  exact safe_sampleChecks P k hd {} s c hc hP hH trivial hT _ hsc
-                | ok gr => rw [hsc] at he; cases he
-          · rename_i hno
-            -- allowed contains the name, so a family is current
-            have hall : st.hdr.allowed.contains s.name = true := by
-              cases hc : st.hdr.allowed.contains s.name
-              · rw [hc] at hno; simp at hno
-              · rfl
-            have hname : ∃ n, st.hdr.name = some n := by
-              cases hn : st.hdr.name with
-              | some n => exact ⟨n, rfl⟩
-              | none => rw [hi.nameNone hn] at hall; cases hall
-            obtain ⟨n, hn⟩ := hname
-            cases hsc : sampleChecks P st.hdr st.grp s false with
-            | error e' =>
-              rw [hsc] at he; cases he
-              exact safe_sampleChecks P k st.hdr st.grp s n hn hP hH hi.gts hT _ hsc
-            | ok gr => rw [hsc] at he; cases he
+          rcases hpo s isNh hp with ⟨rfl, _⟩ | ⟨rfl, hplain⟩
+          · -- read as a native histogram: no family switch, no check
+            unfold stepSample at he
+            simp only [Bool.not_true, Bool.and_false, Bool.false_eq_true, if_false, sampleChecks_nh] at he
+            cases he
+          · obtain ⟨hP, hT⟩ := hpl s hplain
+            unfold stepSample at he
+            split at he
+            · cases hf : flush P st.glob st.hdr st.grp.samples with
+              | error e' => rw [hf] at he; cases he; exact hflush _ hf
+              | ok g =>
+                rw [hf] at he; dsimp only at he
+                cases hu : unknownHdr s with
+                | error e' => rw [hu] at he; cases he; exact safe_unknownHdr s _ hu
+                | ok hd =>
+                  rw [hu] at he; dsimp only at he
+                  obtain ⟨⟨c, hc⟩, _, _⟩ := unknownHdr_ok s hd hu
+                  cases hsc : sampleChecks P hd {} s false with
+                  | error e' =>
+                    rw [hsc] at he; cases he
+                    exact safe_sampleChecks P hd {} s c hc hP hnan (fun a b h => by cases h) hT _ hsc
+                  | ok gr => rw [hsc] at he; cases he
+            · rename_i hno
+              have hall : st.hdr.allowed.contains s.name = true := by
+                cases hc : st.hdr.allowed.contains s.name
+                · rw [hc] at hno; simp at hno
+                · rfl
+              have hname : ∃ n, st.hdr.name = some n := by
+                cases hn : st.hdr.name with
+                | some n => exact ⟨n, rfl⟩
+                | none => rw [hi.nameNone hn] at hall; cases hall
+              obtain ⟨n, hn⟩ := hname
+              cases hsc : sampleChecks P st.hdr st.grp s false with
+              | error e' =>
+                rw [hsc] at he; cases he
+                exact safe_sampleChecks P st.hdr st.grp s n hn hP hnan hi.gts hT _ hsc
+              | ok gr => rw [hsc] at he; cases he
   · -- the invariant
     intro st' hs
     obtain ⟨_, hc⟩ := stepLine_ok P st st' l hs
@@ -230,7 +258,7 @@ theorem step_safe (P : Params) (k : Bool) (st : St) (l : Line) (hi : Inv k st) (
     · exact ⟨hi.plain, hi.nameNone, hi.hist, hi.gts⟩
     · rcases stepMeta_ok P st st' _ _ _ hm with ⟨_, g, hd, _, ha, rfl⟩ | ⟨hn, hd, ha, rfl⟩
       · have hnm : hd.name = some cand := by rw [applyMeta_name _ _ _ _ _ ha]
-        refine ⟨(fun s hs => by cases hs), (fun h0 => by rw [hnm] at h0; cases h0), ?_, trivial⟩
+        refine ⟨(fun s hs => by cases hs), (fun h0 => by rw [hnm] at h0; cases h0), ?_, (fun a b h => by cases h)⟩
         intro n hn hh
         have : n = cand := by rw [hnm] at hn; exact (Option.some.inj hn).symm
         subst this
@@ -238,7 +266,6 @@ theorem step_safe (P : Params) (k : Bool) (st : St) (l : Line) (hi : Inv k st) (
         simp only [List.mem_singleton] at hx
         exact ⟨[], by rw [hx]; simp⟩
       · have hnm : hd.name = some cand := by rw [applyMeta_name _ _ _ _ _ ha]; exact hn
-        -- metadata of the current family is only accepted while it has no samples
         have hemp : st.grp.samples = [] := by
           cases hsm : st.grp.samples with
           | nil => rfl
@@ -251,72 +278,90 @@ theorem step_safe (P : Params) (k : Bool) (st : St) (l : Line) (hi : Inv k st) (
         refine ⟨applyMeta_prefix _ _ _ _ _ ha (fun h0 => (hi.hist n hn h0).1) hh, ?_⟩
         show HistOK n st.grp.samples
         rw [hemp]; intro s hs; cases hs
-    · obtain ⟨hnh, hsp, hpl⟩ := hl
+    · obtain ⟨hnh, hnl, hsp, hpl⟩ := hl
       obtain ⟨_, hpo⟩ := pickSample_lineOK st.hdr.typ nh plain hnh hsp
-      obtain ⟨rfl, hplain⟩ := hpo s isNh hp
-      obtain ⟨hP, hH, hT⟩ := hpl s hplain
-      rcases stepSample_ok P st st' s false hss with ⟨_, g, hd, gr, _, hu, hsc, rfl⟩ | ⟨hno, gr, hsc, rfl⟩
-      · obtain ⟨⟨c, hc⟩, hty, _⟩ := unknownHdr_ok s hd hu
-        obtain ⟨_, hgs⟩ := sampleChecks_ok2 P hd {} gr s c hc hsc
-        obtain ⟨hsub, hgts⟩ := groupStep_samples_sub P {} gr c _ s hgs
-        refine ⟨?_, (fun h0 => by rw [hc] at h0; cases h0), ?_, (by show TsClass k gr.groupTs; rw [hgts]; exact hT)⟩
-        · intro x hx
-          rcases hsub x hx with h1 | rfl
-          · cases h1
-          · exact hP
-        · intro n _ hh
-          exfalso
-          have : isHist hd = false := by unfold isHist; rw [hty]; exact unknown_not_hist
-          rw [this] at hh; cases hh
-      · have hall : st.hdr.allowed.contains s.name = true := by
-          cases hc : st.hdr.allowed.contains s.name
-          · rw [hc] at hno; simp at hno
-          · rfl
-        have hname : ∃ n, st.hdr.name = some n := by
-          cases hn : st.hdr.name with
-          | some n => exact ⟨n, rfl⟩
-          | none => rw [hi.nameNone hn] at hall; cases hall
-        obtain ⟨n, hn⟩ := hname
-        obtain ⟨hpre, hgs⟩ := sampleChecks_ok2 P st.hdr st.grp gr s n hn hsc
-        obtain ⟨hsub, hgts⟩ := groupStep_samples_sub P st.grp gr n _ s hgs
-        refine ⟨?_, hi.nameNone, ?_, (by show TsClass k gr.groupTs; rw [hgts]; exact hT)⟩
-        · intro x hx
-          rcases hsub x hx with h1 | rfl
-          · exact hi.plain x h1
-          · exact hP
-        · intro n' hn' hh
-          have : n' = n := by rw [hn] at hn'; exact (Option.some.inj hn').symm
-          subst this
-          obtain ⟨hpre', hok⟩ := hi.hist n' hn hh
-          refine ⟨hpre', ?_⟩
-          intro x hx
-          rcases hsub x hx with h1 | rfl
-          · exact hok x h1
-          · refine ⟨hP, fun hdrop => ?_⟩
-            obtain ⟨suf, hsuf⟩ := hpre' x.name (by simpa using hall)
-            have hsb : suf = sBucket := by rw [hsuf] at hdrop; simpa using hdrop
-            rw [hsb] at hsuf
-            obtain ⟨l, hl⟩ := Option.isSome_iff_exists.mp hP.1
-            obtain ⟨le, hle⟩ := preChecks_le P n' st.hdr.typ x l hl hpre hsuf
-            exact ⟨hsuf, l, le, hl, hle⟩
+      rcases hpo s isNh hp with ⟨rfl, hnhs⟩ | ⟨rfl, hplain⟩
+      · -- native histogram sample appended
+        have hN := hnl s hnhs
+        rcases stepSample_ok P st st' s true hss with ⟨c, _⟩ | ⟨_, gr, hsc, rfl⟩
+        · simp at c
+        · rw [sampleChecks_nh] at hsc
+          obtain rfl := Except.ok.inj hsc
+          refine ⟨?_, hi.nameNone, ?_, hi.gts⟩
+          · intro x hx
+            rcases List.mem_append.mp hx with h1 | h1
+            · exact hi.plain x h1
+            · rw [List.mem_singleton.mp h1]; exact Or.inr hN
+          · intro n hn hh
+            obtain ⟨hpre', hok⟩ := hi.hist n hn hh
+            refine ⟨hpre', ?_⟩
+            intro x hx
+            rcases List.mem_append.mp hx with h1 | h1
+            · exact hok x h1
+            · rw [List.mem_singleton.mp h1]; exact Or.inr (nhIn_of_nhLine n s hN)
+      · obtain ⟨hP, hT⟩ := hpl s hplain
+        rcases stepSample_ok P st st' s false hss with ⟨_, g, hd, gr, _, hu, hsc, rfl⟩ | ⟨hno, gr, hsc, rfl⟩
+        · obtain ⟨⟨c, hc⟩, hty, _⟩ := unknownHdr_ok s hd hu
+          obtain ⟨_, hgs⟩ := sampleChecks_ok2 P hd {} gr s c hc hsc
+          obtain ⟨hsub, hgts⟩ := groupStep_samples_sub P {} gr c _ s hgs
+          refine ⟨?_, (fun h0 => by rw [hc] at h0; cases h0), ?_, (by show TsOK P gr.groupTs; rw [hgts]; exact hT)⟩
+          · intro x hx
+            rcases hsub x hx with h1 | rfl
+            · cases h1
+            · exact Or.inl hP
+          · intro n _ hh
+            exfalso
+            have : isHist hd = false := by unfold isHist; rw [hty]; exact unknown_not_hist
+            rw [this] at hh; cases hh
+        · have hall : st.hdr.allowed.contains s.name = true := by
+            cases hc : st.hdr.allowed.contains s.name
+            · rw [hc] at hno; simp at hno
+            · rfl
+          have hname : ∃ n, st.hdr.name = some n := by
+            cases hn : st.hdr.name with
+            | some n => exact ⟨n, rfl⟩
+            | none => rw [hi.nameNone hn] at hall; cases hall
+          obtain ⟨n, hn⟩ := hname
+          obtain ⟨hpre, hgs⟩ := sampleChecks_ok2 P st.hdr st.grp gr s n hn hsc
+          obtain ⟨hsub, hgts⟩ := groupStep_samples_sub P st.grp gr n _ s hgs
+          refine ⟨?_, hi.nameNone, ?_, (by show TsOK P gr.groupTs; rw [hgts]; exact hT)⟩
+          · intro x hx
+            rcases hsub x hx with h1 | rfl
+            · exact hi.plain x h1
+            · exact Or.inl hP
+          · intro n' hn' hh
+            have : n' = n := by rw [hn] at hn'; exact (Option.some.inj hn').symm
+            subst this
+            obtain ⟨hpre', hok⟩ := hi.hist n' hn hh
+            refine ⟨hpre', ?_⟩
+            intro x hx
+            rcases hsub x hx with h1 | rfl
+            · exact hok x h1
+            · refine Or.inl ⟨hP, fun hdrop => ?_⟩
+              obtain ⟨suf, hsuf⟩ := hpre' x.name (by simpa using hall)
+              have hsb : suf = sBucket := by rw [hsuf] at hdrop; simpa using hdrop
+              rw [hsb] at hsuf
+              obtain ⟨l, hl⟩ := Option.isSome_iff_exists.mp hP.1
+              obtain ⟨le, hle⟩ := preChecks_le P n' st.hdr.typ x l hl hpre hsuf
+              exact ⟨hsuf, l, le, hl, hle⟩
 
 /-- the loop -/
-theorem run_safe (P : Params) (k : Bool) : ∀ (ls : List Line) (st : St), Inv k st → (∀ l ∈ ls, LineOK P k l) →
-    Safe (run P st ls) ∧ ∀ st', run P st ls = .ok st' → Inv k st' := by
+theorem run_safe (P : Params) (hnan : NaNLiteral P) : ∀ (ls : List Line) (st : St), Inv P st → (∀ l ∈ ls, LineOK P l) →
+    Safe (run P st ls) ∧ ∀ st', run P st ls = .ok st' → Inv P st' := by
   intro ls
   induction ls with
   | nil => intro st hi _; exact ⟨safe_ok _, fun st' h => by cases h; exact hi⟩
   | cons l ls ih =>
     intro st hi hl
-    obtain ⟨hs, hinv⟩ := step_safe P k st l hi (hl l (List.mem_cons_self ..))
+    obtain ⟨hs, hinv⟩ := step_safe P hnan st l hi (hl l (List.mem_cons_self ..))
     unfold run
     cases hst : stepLine P st l with
     | error e => exact ⟨fun e' he' => by cases he'; exact hs e hst, fun st' h => by cases h⟩
     | ok st1 => exact ih st1 (hinv st1 hst) (fun l' hl' => hl l' (List.mem_cons_of_mem _ hl'))
 
-/-- the family state machine raises nothing but ValueError on lines outside the finding classes -/
-theorem assemble_safe (P : Params) (k : Bool) (ls : List Line) (hl : ∀ l ∈ ls, LineOK P k l) : Safe (assemble P ls) := by
-  obtain ⟨hs, hinv⟩ := run_safe P k ls {} (inv_init k) hl
+/-- the family state machine raises nothing but ValueError -/
+theorem assemble_safe (P : Params) (hnan : NaNLiteral P) (ls : List Line) (hl : ∀ l ∈ ls, LineOK P l) : Safe (assemble P ls) := by
+  obtain ⟨hs, hinv⟩ := run_safe P hnan ls {} (inv_init P) hl
   unfold assemble
   cases hr : run P {} ls with
   | error e => intro e' he'; cases he'; exact hs e hr
